@@ -501,7 +501,7 @@ def units(tier, seed):
             for (wc, ws) in (((3, 7), (7, 3)) if tier == 'quick' else ((3, 7), (7, 3), (5, 4), (6, 8))):
                 us.append({'kind': 'lengths', 'must': True, 'seed': seed, 'maxApdu': 50, 'dir': dirn, 'win': wc, 'win_s': ws, 'lo': n, 'hi': n + 1,
                            'maxsegs': 1000})
-    nu = 3000 if tier == 'thorough' else 300
+    nu = 3000 if tier == 'thorough' else 800
     for k in range(nu):
         us.append({'kind': 'explore', 'seed': seed, 'start': k * 40, 'count': 40})
         us.append({'kind': 'explore1', 'seed': seed, 'start': k * 40, 'count': 40})
